@@ -1,6 +1,6 @@
 (* SchedTheorems.v — the statements of property C16 on the model, for EVERY program set accepted by the discipline
    check, every configuration, any number of workers with any scripts, and EVERY schedule (any list of thread ids). *)
-From PG Require Import Common.Tactics Model.Sched Model.SchedDisc Proofs.SchedBase Proofs.SchedMutex Proofs.SchedSound Proofs.SchedSound2 Proofs.SchedSound3.
+From PG Require Import Common.Tactics Model.Sched Model.SchedDisc Proofs.SchedBase Proofs.SchedMutex Proofs.SchedSound Proofs.SchedSound2 Proofs.SchedSound3 Proofs.SchedSound4.
 
 Lemma sumz_zero : forall f ts, (forall th, In th ts -> f th = 0%Z) -> sumz f ts = 0%Z.
 Proof. induction ts; simpl; intros; auto. rewrite H, IHts; auto. Qed.
@@ -142,8 +142,8 @@ Proof.
 Qed.
 
 
-(* ---- all three layers together ---------------------------------------------------------------------------------------- *)
-Record InvAll (g : gstate) (ts : list tstate) : Prop := { ia_1 : Inv ps c g ts; ia_2 : Inv2 ps g ts; ia_3 : GI3 g ts }.
+(* ---- all four layers together ---------------------------------------------------------------------------------------- *)
+Record InvAll (g : gstate) (ts : list tstate) : Prop := { ia_1 : Inv ps c g ts; ia_2 : Inv2 ps g ts; ia_3 : GI3 g ts; ia_4 : Inv4 ps g ts }.
 
 Lemma InvAll_init : forall ws, InvAll (fst (init_state c ws)) (snd (init_state c ws)).
 Proof.
@@ -163,14 +163,23 @@ Proof.
   - constructor.
     + intros t th j Hn Hl. apply nth_error_In in Hn. destruct (Hth _ Hn) as [gr [gn [s E]]]. subst. discriminate.
     + intros t th i Hn Hc. apply nth_error_In in Hn. destruct (Hth _ Hn) as [gr [gn [s E]]]. subst. discriminate.
+  - assert (Hnp : np_sum (map (fun w => thread0 (fst (fst w)) (snd (fst w)) (snd w)) ws) = 0%Z).
+    { unfold np_sum. apply sumz_zero. intros th Hin. destruct (Hth _ Hin) as [gr [gn [s E]]]. subst. reflexivity. }
+    constructor.
+    + constructor; simpl; auto; try (intros; discriminate).
+      * intros t th Hn Hw. apply nth_error_In in Hn. destruct (Hth _ Hn) as [gr [gn [s E]]]. subst. discriminate.
+    + intros t th Hn. apply nth_error_In in Hn. destruct (Hth _ Hn) as [gr [gn [s E]]]. subst.
+      destruct (entry_ann ps HD P_init false) as [x [A B]]. exists x. split. unfold cur_a. simpl. exact A.
+      eapply sat4_leq; eauto. constructor; simpl; auto; intros; discriminate.
 Qed.
 
 Lemma InvAll_step : forall g ts t g' ts', InvAll g ts -> step1 ps c g ts t = Some (g', ts') -> InvAll g' ts'.
 Proof.
-  intros g ts t g' ts' [H1 H2 H3] Hs. constructor.
+  intros g ts t g' ts' [H1 H2 H3 H4] Hs. constructor.
   - eapply Inv_step; eauto.
   - eapply Inv2_step; eauto.
   - eapply GI3_step; eauto.
+  - eapply Inv4_step; eauto.
 Qed.
 
 Theorem InvAll_run : forall ws sched, InvAll (fst (run ps c (init_state c ws) sched)) (snd (run ps c (init_state c ws) sched)).
@@ -190,7 +199,7 @@ Theorem same_group_same_trial : forall ws sched,
   (forall t th i, nth_error (snd st) t = Some th -> r_cur th = Some i ->
      exists x, nth_error (trials_of st) i = Some x /\ t_group x = r_group th).
 Proof.
-  intros. pose proof (InvAll_run ws sched) as HA. fold st in HA. destruct HA as [H1 H2 H3].
+  intros. pose proof (InvAll_run ws sched) as HA. fold st in HA. destruct HA as [H1 H2 H3 _].
   pose proof (i2_gi _ _ _ H2) as G2. unfold trials_of. fold (T (fst st)). split.
   - intros i j xi xj Hi Hj Pi Pj Hg.
     assert (Hcase : forall i j xi xj, nth_error (T (fst st)) i = Some xi -> nth_error (T (fst st)) j = Some xj ->
@@ -218,7 +227,7 @@ Theorem best_trial_max : forall ws sched,
   (finished (snd st) = true -> forall i x r, nth_error (trials_of st) i = Some x -> t_done x = true -> t_inf x = false -> t_final x = Some r ->
      exists b xb rb, s_best (study0_of st) = Some b /\ nth_error (trials_of st) b = Some xb /\ t_final xb = Some rb /\ (r <= rb)%Z).
 Proof.
-  intros. pose proof (InvAll_run ws sched) as HA. fold st in HA. destruct HA as [H1 H2 H3].
+  intros. pose proof (InvAll_run ws sched) as HA. fold st in HA. destruct HA as [H1 H2 H3 _].
   pose proof (i2_gi _ _ _ H2) as G2. unfold trials_of, study0_of. fold (T (fst st)). fold (St (fst st)). split.
   - intros b Hb. destruct (g2_best1 _ _ G2 _ Hb) as [xb [rb [A [B [C1 [D _]]]]]]. eauto 8.
   - intros Hfin i x r Hn Hd Hi Hf. destruct (g2_best2 _ _ G2 _ _ _ Hn Hd Hi Hf) as [[t [th [A [B C1]]]] | H]; auto.
@@ -231,7 +240,7 @@ Qed.
 (* C16, one study per name *)
 Theorem single_study : forall ws sched, nstudies (fst (run ps c (init_state c ws) sched)) <= 1.
 Proof.
-  intros. pose proof (InvAll_run ws sched) as HA. destruct HA as [H1 H2 H3].
+  intros. pose proof (InvAll_run ws sched) as HA. destruct HA as [H1 H2 H3 _].
   set (st := run ps c (init_state c ws) sched) in *.
   pose proof (inv_gi _ _ _ _ H1) as G1. pose proof (i2_gi _ _ _ H2) as G2.
   rewrite (gi_nst _ _ _ G1).
@@ -254,7 +263,7 @@ Theorem reports_exact : forall ws sched,
   (finished (snd st) = true -> forall i x, nth_error (trials_of st) i = Some x ->
      (In (0, t_id x) (a_fed (alg (fst st))) <-> (t_done x = true /\ t_inf x = false))).
 Proof.
-  intros. pose proof (InvAll_run ws sched) as HA. fold st in HA. destruct HA as [H1 H2 H3].
+  intros. pose proof (InvAll_run ws sched) as HA. fold st in HA. destruct HA as [H1 H2 H3 _].
   pose proof (i2_gi _ _ _ H2) as G2. pose proof (inv_gi _ _ _ _ H1) as G1.
   split.
   - apply (NoDup_count_occ pdec). intros [s k].
@@ -273,6 +282,49 @@ Proof.
     pose proof (g2_fedlist _ _ G2 _ _ Hn) as Hc.
     destruct (feedback_exactly_once ws sched) as [_ Hq]. fold st in Hq. specialize (Hq Hfin _ _ Hn). rewrite Hq in Hc.
     rewrite (count_occ_In pdec). rewrite Hc. destruct (t_done x), (t_inf x); simpl; split; intros; try lia; try tauto; destruct H; discriminate.
+Qed.
+
+(* C16, the algorithm is set up at most once: the statement `setup(dna_spec)` runs at most once in any schedule, however many
+   workers race for the first `sample()` *)
+Theorem setup_once : forall ws sched, a_nset (alg (fst (run ps c (init_state c ws) sched))) <= 1.
+Proof.
+  intros. pose proof (InvAll_run ws sched) as HA. destruct HA as [_ _ _ H4].
+  rewrite (g4_nset _ _ (i4_gi _ _ _ H4)). destruct (a_spec _); lia.
+Qed.
+
+(* C16, the counters of the algorithm: in EVERY reachable state outside the setup window (the stretch, inside the registry
+   lock, between `setup` and the two counter resets) `num_feedbacks` is the number of reports and `num_proposals` is the number
+   of trials plus the proposals in flight (counter incremented, trial not yet appended); when all workers have finished,
+   num_proposals = number of trials and num_feedbacks = number of reports *)
+Theorem algorithm_counters : forall ws sched,
+  let st := run ps c (init_state c ws) sched in
+  (a_win (alg (fst st)) = false ->
+     a_nf (alg (fst st)) = length (a_fed (alg (fst st))) /\
+     Z.of_nat (a_np (alg (fst st))) = (Z.of_nat (length (trials_of st)) + sumz (fun th => g_np (gh2 th)) (snd st))%Z) /\
+  (finished (snd st) = true ->
+     a_nf (alg (fst st)) = length (a_fed (alg (fst st))) /\ a_np (alg (fst st)) = length (trials_of st)).
+Proof.
+  intros. pose proof (InvAll_run ws sched) as HA. fold st in HA. destruct HA as [H1 _ _ H4].
+  pose proof (i4_gi _ _ _ H4) as G4. unfold trials_of. fold (T (fst st)). fold (np_sum (snd st)).
+  assert (Hany : a_win (alg (fst st)) = false ->
+     a_nf (alg (fst st)) = length (a_fed (alg (fst st))) /\ Z.of_nat (a_np (alg (fst st))) = (Z.of_nat (length (T (fst st))) + np_sum (snd st))%Z).
+  { intros Hw. destruct (a_spec (alg (fst st))) eqn:Es.
+    - apply (g4_cnt _ _ G4); auto.
+    - destruct (g4_zero _ _ G4 Es) as [A [B _]]. destruct (g4_empty _ _ G4 (or_introl Es)) as [C1 [D E]].
+      rewrite A, B, C1, D, E. split; reflexivity. }
+  split; auto.
+  intros Hfin. unfold finished in Hfin. rewrite forallb_forall in Hfin.
+  assert (Hth : forall t th, nth_error (snd st) t = Some th -> gh2 th = ghost20).
+  { intros t th Hn. pose proof (Hfin _ (nth_error_In _ _ Hn)) as Hp. destruct (pc th) eqn:Epc; try discriminate.
+    destruct (i4_th _ _ _ H4 _ _ Hn) as [a [A B]]. unfold cur_a in A. rewrite Epc in A. inv A.
+    destruct B. simpl in *. destruct (gh2 th); simpl in *; subst; reflexivity. }
+  assert (Hw : a_win (alg (fst st)) = false).
+  { destruct (a_win (alg (fst st))) eqn:Ew; auto. destruct (g4_win2 _ _ G4 Ew) as [t [th [A [B _]]]].
+    unfold in_window in B. rewrite (Hth _ _ A) in B. discriminate. }
+  destruct (Hany Hw) as [A B]. split; auto.
+  assert (Hz : np_sum (snd st) = 0%Z).
+  { unfold np_sum. apply sumz_zero. intros th Hin. destruct (In_nth_error _ _ Hin) as [t Hn]. rewrite (Hth _ _ Hn). reflexivity. }
+  rewrite Hz in B. lia.
 Qed.
 
 End Theorems.
